@@ -155,7 +155,13 @@ def stepCmd (o : FOps) (t : Tree) (toks : List String) : Option (Tree × String)
   -- a text-out that accepts the open and fails every write: the harness uses it only with
   -- reports far larger than the output buffer, so printing fails before the final Sync —
   -- an error, and the tree keeps its bytes
-  if toks.head? == some "cmd" ∧ kv toks "textout" == some "full" then some (t, "err (no-output)") else
+  if toks.head? == some "cmd" ∧ kv toks "textout" == some "full" then
+    -- (with the reading commands the report may be small: then the failure surfaces when the
+    -- writer is flushed at the end; an error of the command itself comes first)
+    match stepCmd1 o t toks with
+    | none => none
+    | some (_, obs) => if obs.startsWith "err" then some (t, obs) else some (t, "err (no-output)")
+  else
   match stepCmd1 o t toks with
   | none => none
   | some (t', obs) =>
